@@ -190,7 +190,7 @@ Contract(
     requires=[("fault", lambda c: fault_inv(c, c.a.self)),
               ("version", lambda c: z3.Or(z3.Not(V.truthy(c.a.version)), is_version(c.a.version)))],
     ensures=[("error_object", lambda c: z3.And(c.returns, _fault_dump_post(c)), ("C14", "C02", "C03"))],
-    modifies=[Field(lambda c: c.a.self, "rpcid")],
+    modifies=[Field(lambda c: c.a.self, "rpcid"), Ghost("x_kind"), Ghost("x_val")],
     props=("C14",),
 )
 
@@ -202,7 +202,7 @@ Contract(
         c.returns, z3.And(V.is_str(c.ret), c.ret == V.VStr(V.jdumps_of(c.gnew("last_dumped"))),
                           (lambda r: _fault_dump_shape(c, r))(c.gnew("last_dumped")))), ("C14", "C02")),
              ("only_type_error", lambda c: implies(c.raised, c.raises(TypeError)), ("C14",))],
-    modifies=[Field(lambda c: c.a.self, "rpcid"), Ghost("last_dumped")],
+    modifies=[Field(lambda c: c.a.self, "rpcid"), Ghost("last_dumped"), Ghost("x_kind"), Ghost("x_val")],
     props=("C14",),
 )
 
